@@ -55,8 +55,9 @@ def gen(rng, n):
         if cmd == 'restore':
             step['argv'] = ['/']
             step['stdin'] = rng.choice(['0\n', '0-%d\n' % (k - 1), '%d\n' % (k - 1), '0,0\n', '0-%d,0\n' % (k - 1)])     # (an index may be typed twice)
-            if rng.random() < 0.35:
-                # --overwrite onto something that is already there (a file, a directory, a link)
+            if rng.random() < 0.35 and not any('\n' in e['name'] for e in ents):
+                # --overwrite onto something that is already there (a file, a directory, a link).  (Not with a newline in a name: the text
+                # of shutil's "Destination path ... already exists" then spans lines, which the line-wise stderr tie cannot follow.)
                 step['argv'].append('--overwrite')
                 for e in ents:
                     if rng.random() < 0.7 and not any(n[1] == e['full'] for n in nodes):
